@@ -40,7 +40,42 @@ func (E *Engine) get(st *State, key string, s Sort) *Term {
 	E.heapSorts[key] = s
 	t := E.tb.Const(fmt.Sprintf("%s@%d", key, st.base), s)
 	st.heap[key] = t
+	if key != allocKey {
+		if c := E.closed(t, E.tb.Const(fmt.Sprintf("%s@%d", allocKey, st.base), SInt)); c != nil {
+			E.tb.AddTermAxiom("closed:"+t.atom, c, t)
+		}
+	}
 	return t
+}
+
+// closed states heap closedness for one heap array: every reference stored in it is nil or refers
+// to an object that exists at time clk. nil if the array holds no references.
+func (E *Engine) closed(h *Term, clk *Term) *Term {
+	tb := E.tb
+	if !h.sort.IsArray() {
+		return nil
+	}
+	ks, vs := h.sort.ArrayParts()
+	if ks != SRef {
+		return nil
+	}
+	p := tb.BVar("p", SRef)
+	val := tb.Select(h, p)
+	vars := []*Term{p}
+	if vs.IsArray() {
+		k2, v2 := vs.ArrayParts()
+		q := tb.BVar("q", k2)
+		val = tb.Select(val, q)
+		vars = append(vars, q)
+		vs = v2
+	}
+	switch vs {
+	case SRef:
+		return tb.Forall(vars, tb.Cmp("<=", E.birth(val), clk))
+	case SSlc:
+		return tb.Forall(vars, tb.Cmp("<=", E.birth(tb.App("s_arr", SRef, val)), clk))
+	}
+	return nil
 }
 
 func (E *Engine) set(st *State, key string, t *Term) {
